@@ -23,7 +23,7 @@ LEVEL = "exploration"
 
 tiers: Dict[str, Dict[str, Any]] = {
     "quick": {"runs": 0, "chunk": 1, "wall_cap_s": 900, "determinism_samples": 2,
-              "children": 4, "big_children": 2, "batch": 28, "max_minimise": 3,
+              "children": 3, "big_children": 2, "batch": 28, "max_minimise": 3,
               "minimise_budget_s": 90},
     "thorough": {"runs": 0, "chunk": 1, "wall_cap_s": 3300, "determinism_samples": 2,
                  "children": 12, "big_children": 4, "batch": 28, "max_minimise": 4,
@@ -53,6 +53,10 @@ def _all_cases(seed: int, tier: str) -> List[dict]:
     return _CASES[key]
 
 
+def _big_targets(tier: str) -> List[str]:
+    return ["jsonschema", "xsd", "python", "typescript"] if tier == "quick" else list(repo.TARGETS)
+
+
 def prepare(tier: str) -> None:
     workload.usable_table()
     from dsim import driver
@@ -61,7 +65,7 @@ def prepare(tier: str) -> None:
     n = len(_all_cases(seed, tier))
     batch = int(tiers[tier]["batch"])
     n_batches = (n + batch - 1) // batch
-    tiers[tier]["runs"] = len(repo.TARGETS) + n_batches
+    tiers[tier]["runs"] = len(_big_targets(tier)) + n_batches
     tiers[tier]["n_small_batches"] = n_batches
 
 
@@ -70,7 +74,7 @@ def describe() -> dict:
         "rule": (
             "one evaluation = one batch (<= 28 cases (model, snippets variant, target) of the "
             "corpus incl. rejected models, or one aas_core_meta.v3 x target case) executed in "
-            "4 (quick) / 12 (thorough) fresh interpreters that differ in PYTHONHASHSEED, heap "
+            "3 (quick) / 12 (thorough) fresh interpreters that differ in PYTHONHASHSEED, heap "
             "junk, snippets listing order, output-dir location (plain/deep/space+unicode/"
             "relative), output-dir history (absent/empty/foreign files/same-named longer "
             "files) and position of the case in the process; compared: rc, stdout up to the "
@@ -92,9 +96,10 @@ def describe() -> dict:
 def gen_plan(seed: int, run: int, tier: str) -> dict:
     cfg = tiers[tier]
     rng = random.Random(f"{seed}:C22:{run}")
-    n_big = len(repo.TARGETS)
+    big_targets = _big_targets(tier)
+    n_big = len(big_targets)
     if run < n_big:
-        cases = [{"model": "common/aas_core_meta.v3", "target": repo.TARGETS[run],
+        cases = [{"model": "common/aas_core_meta.v3", "target": big_targets[run],
                   "snippets": "big"}]
         n_children = int(cfg["big_children"])
     else:
